@@ -29,3 +29,13 @@ Definition pmismatches (cs : list pcase) : list N :=
                  let '(mi, md) := @in_circumcircle FOps (fv2 (fst a) (snd a)) (fv2 (fst b) (snd b))
                                                    (fv2 (fst c3) (snd c3)) (fv2 (fst p) (snd p)) in
                  negb (Bool.eqb mi gi && Bool.eqb md gd)) cs).
+
+(* super triangle cases: id, x-sorted points, the six coordinates Go's superTriangle returned *)
+Definition scase := (N * list (float * float) * (float * float * float * float * float * float))%type.
+Definition smismatches (cs : list scase) : list N :=
+  map (fun c : scase => let '(id, _, _) := c in id)
+      (filter (fun c : scase =>
+                 let '(id, pts, (ax, ay, bx, by_, cx, cy)) := c in
+                 let '(p0, p1, p2) := @super_triangle FOps (map (fun p : float * float => fv2 (fst p) (snd p)) pts) in
+                 negb (fsame (vx p0) ax && fsame (vy p0) ay && fsame (vx p1) bx && fsame (vy p1) by_
+                       && fsame (vx p2) cx && fsame (vy p2) cy)) cs).
